@@ -63,7 +63,8 @@ class Gen:
         if t == "str":
             return self.marker(key)
         if t == "strs":
-            return [self.marker(key) for _ in range(r.randint(0, 3))]
+            # list entries are carried verbatim: trailing separators, a bare "/", surrounding blanks and empty entries included
+            return [self.marker(key) + r.choice(["", "", "", "/", "//", "/.", " "]) for _ in range(r.randint(0, 3))] + (["/"] if r.random() < 0.05 else [])
         if t == "map":
             return {self.marker("ak"): r.choice([self.marker("av"), 7, True, [1, "x"], {"nested": {"deep": self.marker("d")}}])
                     for _ in range(r.randint(0, 3))}
@@ -208,6 +209,19 @@ def gen_cases(ctx):
             else:
                 t["packages"]["example.com/x/q"]["interfaces"]["I"]["configs"][1] = c
             cases.append({"i": len(cases), "tree": t})
+    # exclude entries ending in a separator (v2 users wrote directory prefixes), at every level
+    for lvl in ("top", "pkg", "iface", "configs"):
+        c = {"exclude": ["example.com/x/q/gen/", "vendor/", "/", "third_party//", "plain"]}
+        t = {"packages": {"example.com/x/q": {"config": {}, "interfaces": {"I": {"config": {}, "configs": [{}, {}]}}}}}
+        if lvl == "top":
+            t.update(c)
+        elif lvl == "pkg":
+            t["packages"]["example.com/x/q"]["config"] = c
+        elif lvl == "iface":
+            t["packages"]["example.com/x/q"]["interfaces"]["I"]["config"] = c
+        else:
+            t["packages"]["example.com/x/q"]["interfaces"]["I"]["configs"][1] = c
+        cases.append({"i": len(cases), "tree": t})
     # explicit empty strings for every string-valued mapped key, at every level
     strkeys = [k for k in MAPPED if V2_TYPES.get(k) == "str"]
     for lvl in ("top", "pkg", "iface", "configs"):
